@@ -140,6 +140,33 @@ def run(ctx):
         ps = [p for p in ru.all_paths(ctx, "C09-c", ac, max_visits=2) if p.end == "return"]
         nones = [p for p in ps if p.ret_shape() == "Ready(Ok(None))"]
         ctx.floor("C09-c", "`no more requests` returns", len(nones), 2)
+        # the peer's GOAWAY is recorded by this poll's control-stream processing (poll_control -> process_goaway writes recv_closing):
+        # the drain decision must look at recv_closing AFTER that call, or the poll that reads the GOAWAY answers Pending with
+        # nothing left to wake it (a read hoisted above the call is stale by one poll)
+        rblocks = set()
+        for bb_, i_, st in ac.all_stmts():
+            if st.s != "assign":
+                continue
+            pls = ([st.rv.place] if st.rv.place is not None else []) + [o.place for o in st.rv.ops if o.place is not None]
+            if any(pl.local == 1 and "recv_closing" in pl.fields() for pl in pls):
+                rblocks.add(bb_)
+        for bb_, t in ac.all_terms():
+            if t.t == "call" and any(a.place is not None and a.place.local == 1 and "recv_closing" in a.place.fields() for a in t.args):
+                rblocks.add(bb_)
+        cblocks = {bb_ for bb_, t in ac.calls(SV + "poll_control")}
+        ctx.floor("C09-c", "reads of recv_closing in the accept poll", len(rblocks), 1)
+        ctx.floor("C09-c", "control-stream processing in the accept poll", len(cblocks), 1)
+        stale = None
+        for p in ps:
+            ri = [i for i, bb_ in enumerate(p.blocks) if bb_ in rblocks]
+            ci = [i for i, bb_ in enumerate(p.blocks) if bb_ in cblocks]
+            if ri and ci and min(ri) <= max(ci):
+                stale = p
+                break
+        ctx.check(stale is None, "C09-c", ac.key, "recv_closing is read after this poll's control-stream processing",
+                  "poll_accept_request_stream_internal reads recv_closing before (a later) poll_control(cx) on some path: in the poll that "
+                  "receives the peer's GOAWAY the drain decision uses the old value, accept() answers Pending although every request has "
+                  "ended, and nothing wakes it again", "", None, stale.describe() if stale is not None else None)
         for p in nones:
             rd = [t for t in p.tests if t[3][0] == "call" and t[3][1] == "core::task::poll::Poll::is_ready" and
                   pa.head_call(t[3][2][0])[0] == SV + "poll_requests_completion"]
